@@ -5,15 +5,16 @@ PROP = {'id': 'C20',
                'Result.is_canceled',
                'JobSubmitter._build_results',
                'ResourceMonitorAggregator.update_resource_stats'],
- 'native': ['ResourceMonitorAggregator.update_resource_stats', 'EventsSummary._consolidate_events'],
+ 'native': ['ResourceMonitorAggregator.update_resource_stats', 'ResourceMonitorAggregator.finalize', 'EventsSummary._consolidate_events'],
  'lemmas': ['lemma_c20_running_stats', 'lemma_fold_schemas'],
  'records': ['Result', 'ResourceMonitorAggregator', 'JobSubmitter'],
  'min_obligations': 150,
  'assumptions': ['floats are reals (rounding of sum and of sum/count ignored)',
                  'samples are non-negative and below sys.maxsize; the monitor reports a stable set of cells (assumed contract of _get_stats)',
                  'result rows are well-formed (status finished, or canceled with a non-zero code): established by the three row producers'],
- 'not_decided': ['ResourceMonitorAggregator.finalize (mean = sum / count and report layout) and the per-process branch of update_resource_stats: not under '
-                 'contract',
+ 'not_decided': ['ResourceMonitorAggregator.finalize (mean = sum / count and report layout): not under contract (heterogeneous nested dicts, pop, json) - '
+                 'BOUNDED only: the written report is compared with the true max / min / mean of 1-7 generated samples per cell; the per-process '
+                 'branch of update_resource_stats: not under contract',
                  'ResultsSummary.show_results tallies (same classifier calls, PrettyTable output): not under contract',
                  'parquet encoding of resource-stat events; clock skew between nodes',
                  'event consolidation (EventsSummary._consolidate_events / _save_events_summary, StructuredLogEvent round trip): json / pandas / defaultdict, '
